@@ -158,6 +158,30 @@ harness! {
 }
 
 
+harness! {
+    fn q12_truncated_distribution_parameters() {
+        // TruncatedDoubleGeometric::new: scale below MIN_POSITIVE -> BadS, truncation point above 10^6 ->
+        // BadShiftValue (checked in this order); an accepted distribution remembers 2*n exactly.
+        use crate::protocol::ipa_prf::oprf_padding::distributions::TruncatedDoubleGeometric;
+        let s: f64 = kani::any();
+        let n: u32 = kani::any();
+        kani::assume(!s.is_nan());
+        let r = TruncatedDoubleGeometric::new(s, n);
+        match &r {
+            Err(DpError::BadS(_)) => assert!(s < f64::MIN_POSITIVE),
+            Err(DpError::BadShiftValue(_)) => assert!(s >= f64::MIN_POSITIVE && n > 1_000_000),
+            Err(_) => assert!(s >= f64::MIN_POSITIVE && n <= 1_000_000),
+            Ok(d) => {
+                assert!(s >= f64::MIN_POSITIVE && n <= 1_000_000, "only documented parameters are accepted");
+                assert!(d.shift_doubled == 2 * n, "the support is exactly 0..=2n");
+            }
+        }
+        kani::cover!(r.is_ok());
+        kani::cover!(matches!(r, Err(DpError::BadShiftValue(_))));
+        std::mem::forget(r);
+    }
+}
+
 // native replay slot (cargo kani playback): the driver points IPA_VERIF_REPLAY_DIR at a directory
 // holding one file per hook; the generated test calls the harness by its path relative to this module.
 #[cfg(test)]
